@@ -581,6 +581,56 @@ fn parse_doc(rng: &mut Rng, r: &RVal) -> Option<(String, Value, CodeMap)> {
 	}
 }
 
+/// What a conversion of `r` into `shape` must report (the first failure in document order), with
+/// the pre-order numbering of fragments: a container at `i` has its first child at `i + 1`; an
+/// entry at `j` has its key at `j + 1` and its value at `j + 2`.
+fn model_convert(shape: &Shape, r: &RVal, i: usize) -> Result<(), (bool, usize, Option<Kind>)> {
+	fn kind_of(r: &RVal) -> Kind {
+		match r {
+			RVal::Null => Kind::Null,
+			RVal::Bool(_) => Kind::Boolean,
+			RVal::Num(_) => Kind::Number,
+			RVal::Str(_) => Kind::String,
+			RVal::Arr(_) => Kind::Array,
+			RVal::Obj(_) => Kind::Object,
+		}
+	}
+	fn volume(r: &RVal) -> usize {
+		match r {
+			RVal::Arr(a) => 1 + a.iter().map(volume).sum::<usize>(),
+			RVal::Obj(o) => 1 + o.iter().map(|(_, x)| 2 + volume(x)).sum::<usize>(),
+			_ => 1,
+		}
+	}
+	let wrong = || Err((false, i, Some(kind_of(r))));
+	match (shape, r) {
+		(Shape::Leaf, RVal::Bool(_)) => Ok(()),
+		(Shape::Str, RVal::Str(_)) => Ok(()),
+		(Shape::Opt(_), RVal::Null) => Ok(()),
+		(Shape::Opt(inner), _) => model_convert(inner, r, i),
+		(Shape::Vec(inner), RVal::Arr(items)) => {
+			let mut j = i + 1;
+			for x in items {
+				model_convert(inner, x, j)?;
+				j += volume(x);
+			}
+			Ok(())
+		}
+		(Shape::MapU32(inner), RVal::Obj(entries)) | (Shape::MapStr(inner), RVal::Obj(entries)) => {
+			let mut j = i + 1;
+			for (k, x) in entries {
+				if matches!(shape, Shape::MapU32(_)) && k.parse::<u32>().is_err() {
+					return Err((true, j + 1, None));
+				}
+				model_convert(inner, x, j + 2)?;
+				j += 2 + volume(x);
+			}
+			Ok(())
+		}
+		_ => wrong(),
+	}
+}
+
 fn conversions(rep: &mut Report, rng: &mut Rng, which: usize) {
 	let shape = shape_of(which);
 	let r = gen_conforming(rng, &shape);
@@ -634,6 +684,30 @@ fn conversions(rep: &mut Report, rng: &mut Rng, which: usize) {
 				case(&ptext, which),
 			);
 			return;
+		}
+		// another value at the same place (null, an empty or non-empty container of either kind, a string, a
+		// boolean): what the conversion must report is decided by a model of the conversion traits
+		if kind == FragKind::Value {
+			let other = [RVal::Null, RVal::Obj(vec![]), RVal::Arr(vec![]), RVal::Str("s".into()), RVal::Bool(true), RVal::Arr(vec![RVal::Null]), RVal::Obj(vec![("1".into(), RVal::Bool(false))])][(idx + rep.evaluations as usize) % 7].clone();
+			let planted2 = replace_at(&r, &path, &other);
+			let Some((ptext2, pv2, pcm2)) = parse_doc(rng, &planted2) else { continue };
+			rep.count("planted_documents", 1);
+			let want = model_convert(&shape, &planted2, 0);
+			let got2 = guard(|| convert(which, &pv2, &pcm2));
+			let ok2 = match (&got2, &want) {
+				(Ok(Ok(())), Ok(())) => true,
+				(Ok(Err(LErr::Kind { offset, found })), Err((false, o, Some(f)))) => offset == o && found == f,
+				(Ok(Err(LErr::Key { offset })), Err((true, o, _))) => offset == o,
+				_ => false,
+			};
+			if !ok2 {
+				rep.violation(
+					"C11:conversion-error-offset",
+					format!("type {}: {} planted at fragment {} of {}: conversion reports {:?}, a model of the conversion traits gives {:?} ((is_key, offset, found kind))", which, doc_of(&other), idx, show(ptext2.as_bytes()), got2, want),
+					case(&ptext2, which),
+				);
+				return;
+			}
 		}
 	}
 }
